@@ -19,6 +19,7 @@ import (
 	"os"
 	"path/filepath"
 	"regexp"
+	"sort"
 	"strings"
 	"testing"
 
@@ -471,6 +472,26 @@ func TestVerifC16(t *testing.T) {
 		}
 	}
 	r.Bounds["multi_site_templates"] = len(c16Templates)
+
+	// ---- (a4) every workflow of the repository's own testdata (all rules, the maintainers' examples)
+	// rendered in every mode and parsed back
+	for _, g := range []string{"testdata/examples/*.yaml", "testdata/ok/*.yaml", "testdata/err/*.yaml"} {
+		files, _ := filepath.Glob(filepath.Join(repo, g))
+		sort.Strings(files)
+		for _, f := range files {
+			idx++
+			if !r.Mine(idx) {
+				continue
+			}
+			b, err := os.ReadFile(f)
+			if err != nil {
+				continue
+			}
+			what := "corpus " + strings.TrimPrefix(f, repo+"/")
+			r.Begin(func() string { return what })
+			c16CheckRender(r, what, string(b))
+		}
+	}
 
 	// ---- (a3) several files in one LintFiles call: what is printed is what is returned, in that order
 	if r.Shard == 0 {
